@@ -441,7 +441,14 @@ def _check_indep_codon(ctx, lf, spec, out):
     got = float(lf.lnL)
     out["evaluations"] += 1
     bump(out, "indep_codon_Q", f"{name}:gc={gc}")
-    if not (abs(got - want) <= 1e-7 * abs(want) + 1e-10):
+    # scipy's Pade and the implementation's eigen exponential agree to ~1e-13 absolutely; a column whose likelihood is of
+    # that order (e.g. it needs a path through codons of frequency zero) has no numerically meaningful log
+    fl = [float(x) for x in lf.get_full_length_likelihoods()]
+    if any(not x > 1e-200 for x in fl):
+        bump(out, "indep_codon_Q_ill_conditioned")
+        return
+    slack = sum(1e-12 / x for x in fl)
+    if not (abs(got - want) <= 1e-7 * abs(want) + 1e-10 + slack):
         add_failure(out, "spec", "lnL differs from the value computed from an independently built codon rate matrix",
                     dict(_slim(spec), check="indepQ"), want, got, sig=f"indepQ:{name}:gc={'std' if gc in (1, 11) else 'nonstd'}")
     else:
@@ -536,7 +543,11 @@ def _adversarial_expm(ctx, rng, out, n):
             continue
         out["evaluations"] += 1
         bump(out, "adversarial_expm", name)
-        if worst > 1e-8 or rows > 1e-9 or not (abs(got - want) <= 1e-7 * abs(want) + 1e-10):
+        # extreme terms (1e-6 / 1e6) give P entries ~1e-10: a column likelihood of that order carries the 1e-16 absolute
+        # difference between the two exponentials as a relative error; allow for it (P itself is compared at 1e-8)
+        fl = [float(x) for x in lf.get_full_length_likelihoods()]
+        slack = sum(1e-12 / x for x in fl) if all(x > 1e-200 for x in fl) else float("inf")
+        if worst > 1e-8 or rows > 1e-9 or not (abs(got - want) <= 1e-7 * abs(want) + 1e-10 + slack):
             add_failure(out, "spec", "P / lnL differ from scipy expm(Q t) of the model's own Q under tied or extreme in-bounds rate terms",
                         dict(_slim(spec), check="adversarial"), dict(lnL=want, max_abs_P_err="<=1e-8", row_sum_err="<=1e-9"),
                         dict(lnL=got, max_abs_P_err=worst, row_sum_err=rows), sig=f"adversarial-expm:{name}")
@@ -566,8 +577,12 @@ def spec_check(ctx, budget):
     for i in range(n_big):
         # one codon model with a reproduced definition and one arbitrary codon model, each under a random NCBI table
         for j in range(2):
-            specs.append(U.rand_problem(rng, indep[(2 * (ctx.seed * n_big + i + budget) + j) % len(indep)], ntips=rng.choice([3, 3, 4]),
-                                        ncols=rng.randint(4, 7), gc=rng.choice([2, 2, 4, 5, 3, 6, 1]), bins=1))
+            sp = U.rand_problem(rng, indep[(2 * (ctx.seed * n_big + i + budget) + j) % len(indep)], ntips=rng.choice([3, 3, 4]),
+                                ncols=rng.randint(4, 7), gc=rng.choice([2, 2, 4, 5, 3, 6, 1]), bins=1)
+            # all codon frequencies positive: with frequencies estimated from a 5-column alignment most codons have
+            # frequency zero and multi-step changes have likelihood exactly zero (lnL is then rounding noise)
+            sp["mprobs"] = sp["mprobs"] or U.rand_mprobs(rng, [str(m) for m in U.get_sm(sp["model"], gc=sp["model_kw"]["gc"]).get_alphabet()])
+            specs.append(sp)
         specs.append(U.rand_problem(rng, codon[(ctx.seed * n_big + i + budget) % len(codon)], ntips=rng.choice([3, 3, 4]), ncols=rng.randint(3, 6),
                                     gc=rng.choice([1, 2, 4, 5, 11])))
         specs.append(U.rand_problem(rng, prot[(ctx.seed * n_big + i + budget) % len(prot)], ntips=rng.choice([3, 4]), ncols=rng.randint(3, 8)))
